@@ -1,8 +1,458 @@
-import CoclsModel.Callback
-/-! # C18 — property theorems (placeholder while the invariant proofs are being written) -/
+import CoclsModel.CallbackProofs
+set_option linter.unusedSimpArgs false
+/-!
+# C18 — callback adapters fire exactly once with the right outcome
+
+Model: `CoclsModel/Callback.lean` (micro-step machines of `callback_await`, `make_promise`, `discard`, `future_conv`,
+`call_fn_future_awaiter` around one awaited operation); invariant: `CoclsModel/CallbackProofs.lean`.
+
+Every theorem quantifies over **all** well-formed configurations `c` — adapter, converter behaviour and conversion
+function, outcome kinds, any number `c.n - 1` of promise invocations / destructor agents on other threads with arbitrary
+kinds (`c.rk`), resolution inside the factory (`c.pre`: "already resolved at registration"), by the registering thread
+afterwards (`c.selfRes`) or by the other agents (concurrently) — and over **all** schedules (`Reach`: any list of agent
+ids, by induction).  The allocator (heap / storage) only names where the helper block comes from: `allocs`/`frees`
+count blocks of whichever allocator was chosen.  `Pre c` = callbacks do not throw (the documented contract); it is
+needed exactly where the statement talks about the number of *callback* invocations of `callback_await`.
+-/
 namespace Cocls.Callback
 
-theorem c18_placeholder (c : Cfg) (s : State) (t : Nat) (h : s.pc t = Pc.done) : (astep c s t).1 = s := by
-  unfold astep; simp [h]
+/-- states reachable from the initial state under some schedule -/
+def Reach (c : Cfg) (s : State) : Prop := ∃ sched : List Nat, s = run c (init c) sched
+
+theorem reach_inv {c : Cfg} {s : State} (hwf : c.WF) (hr : Reach c s) : Inv c s := by
+  obtain ⟨sched, rfl⟩ := hr
+  exact inv_reachable c hwf sched
+
+/-- every agent has finished -/
+def AllDone (c : Cfg) (s : State) : Prop := ∀ t, t < c.n → s.pc t = Pc.done
+
+theorem allDone_iff (c : Cfg) (s : State) : allDone c s = true ↔ AllDone c s := by
+  simp [allDone, AllDone, List.all_eq_true]
+
+section
+variable {c : Cfg} {s : State}
+
+theorem sawOf_length_le (hpre : Pre c) (p : Outcome) : (sawOf c p).length ≤ 1 := by
+  unfold Pre at hpre
+  unfold sawOf cbAwaitSees
+  cases c.adapter <;> simp [hpre]
+
+theorem convInOf_length_le (p : Outcome) : (convInOf c p).length ≤ 1 := by
+  unfold convInOf
+  split
+  · cases convArg c p <;> simp
+  · simp
+
+/-- **At most once, always.**  In every reachable state the completion has run at most once, the converter was invoked
+at most once, the outer promise was resolved at most once, and (callbacks do not throw) the user callback was invoked
+at most once. -/
+theorem c18_at_most_once (hwf : c.WF) (hr : Reach c s) :
+    s.calls ≤ 1 ∧ s.convIn.length ≤ 1 ∧ s.outerSets ≤ 1 ∧ (Pre c → s.saw.length ≤ 1) := by
+  have h := reach_inv hwf hr
+  by_cases hu : s.tok = Tok.used
+  · obtain ⟨_, h2, h3, _, h5⟩ := h.done_state hu
+    refine ⟨by rw [h.calls_eq]; split <;> omega, by rw [h3]; exact convInOf_length_le _, by rw [h5]; split <;> omega, ?_⟩
+    intro hpre; rw [h2]; exact sawOf_length_le hpre _
+  · obtain ⟨h2, h3, _, h5⟩ := h.fresh_state hu
+    refine ⟨by rw [h.calls_eq]; split <;> omega, by simp [h3], by omega, fun _ => by simp [h2]⟩
+
+/-- at quiescence nobody holds the completion any more, and a resolved operation has been completed -/
+theorem quiescent_used (hwf : c.WF) (hr : Reach c s) (hd : AllDone c s) (hs : s.slot = Slot.ready) : s.tok = Tok.used := by
+  have h := reach_inv hwf hr
+  have hall : ∀ t, s.pc t = Pc.done := by
+    intro t
+    by_cases ht : t < c.n
+    · exact hd t ht
+    · exact h.range t (by omega)
+  cases htok : s.tok with
+  | used => rfl
+  | slot => have := h.tok_slot.1 htok; rw [hs] at this; cases this
+  | agent t => have := (h.tok_agent t).1 htok; rw [hall t] at this; simp [holds] at this
+
+/-- **Exactly once at quiescence.**  When all agents have finished and the awaited operation is resolved, the completion
+has run exactly once; the user callback of `callback_await` / `make_promise` / `call_fn_future_awaiter` was invoked
+exactly once and saw the operation's outcome (value, exception, or broken promise). -/
+theorem c18_once (hwf : c.WF) (hpre : Pre c) (hr : Reach c s) (hd : AllDone c s) (hs : s.slot = Slot.ready) :
+    s.calls = 1 ∧
+    (c.adapter = Adapter.cbAwait ∨ c.adapter = Adapter.mkProm ∨ c.adapter = Adapter.callFn → s.saw = [s.payload.obs]) ∧
+    (c.adapter = Adapter.discard ∨ c.adapter = Adapter.conv → s.saw = []) := by
+  have h := reach_inv hwf hr
+  have hu := quiescent_used hwf hr hd hs
+  obtain ⟨_, h2, _, _, _⟩ := h.done_state hu
+  unfold Pre at hpre
+  refine ⟨by rw [h.calls_eq, if_pos hu], ?_, ?_⟩
+  · intro ha; rw [h2]; unfold sawOf cbAwaitSees
+    rcases ha with ha | ha | ha <;> simp [ha, hpre]
+  · intro ha; rw [h2]; unfold sawOf
+    rcases ha with ha | ha <;> simp [ha]
+
+/-- **The operation does get resolved.**  Once every agent has finished and the promise has been invoked or destroyed
+at all (`owner = false`), the future is resolved — in particular whenever there is at least one agent besides the
+registrar, or the registrar invokes the promise itself, or the factory resolved it. -/
+theorem c18_resolved_at_quiescence (hwf : c.WF) (hr : Reach c s) (hd : AllDone c s) :
+    (s.owner = false → s.slot = Slot.ready) ∧
+    (1 < c.n ∨ c.selfRes.isSome = true → s.owner = false) ∧
+    (c.pre.isSome = true → s.slot = Slot.ready) := by
+  have h := reach_inv hwf hr
+  have hpos := hwf.pos
+  refine ⟨?_, ?_, h.pre_ready⟩
+  · intro ho
+    by_cases hs : s.slot = Slot.ready
+    · exact hs
+    · exfalso
+      obtain ⟨_, w, hw⟩ := h.own_f ho
+      obtain ⟨t, _, hres⟩ := (h.pending_phase hs).2 w hw
+      have hdone : s.pc t = Pc.done := by
+        by_cases ht : t < c.n
+        · exact hd t ht
+        · exact h.range t (by omega)
+      rw [hdone] at hres; simp [isResolve] at hres
+  · intro hc
+    rcases hc with hc | hc
+    · exact h.claimed 1 (Or.inr ⟨hc, hd 1 hc, Or.inl (by omega)⟩)
+    · exact h.claimed 0 (Or.inr ⟨hpos, hd 0 hpos, Or.inr hc⟩)
+
+/-- **Right outcome.**  Whatever a user callback was shown is the operation's (final) outcome: the future is resolved at
+that point and the observation is the resolved payload — the value, the exception, or "canceled" for a broken promise. -/
+theorem c18_outcome (hwf : c.WF) (hpre : Pre c) (hr : Reach c s) :
+    ∀ o ∈ s.saw, s.slot = Slot.ready ∧ o = s.payload.obs := by
+  have h := reach_inv hwf hr
+  intro o ho
+  by_cases hu : s.tok = Tok.used
+  · obtain ⟨h1, h2, _⟩ := h.done_state hu
+    refine ⟨h1, ?_⟩
+    rw [h2] at ho
+    unfold Pre at hpre
+    unfold sawOf cbAwaitSees at ho
+    cases ha : c.adapter <;> simp [ha, hpre] at ho <;> exact ho
+  · rw [(h.fresh_state hu).1] at ho; cases ho
+
+/-- the resolved payload is the one supplied by the unique winner of the promise: the factory, an invocation (its
+argument), or a destructor agent (no value) -/
+theorem c18_result_is_winners (hwf : c.WF) (hr : Reach c s) (hs : s.slot = Slot.ready) :
+    s.wins = 1 ∧ ∃ w, s.winner = some w ∧ s.payload = winPayload c w := by
+  have h := reach_inv hwf hr
+  obtain ⟨w, hw, _, hp⟩ := h.ready_phase hs
+  have ho : s.owner = false := by
+    cases hown : s.owner with
+    | false => rfl
+    | true => have := (h.own_t hown).2; rw [hw] at this; cases this
+  exact ⟨(h.own_f ho).1, w, hw, hp⟩
+
+/-- **The outcome is final.**  Once the operation is resolved no step of any agent changes the slot or the payload any
+more: what a callback was shown (`c18_outcome`) stays the operation's outcome. -/
+theorem c18_result_stable (hwf : c.WF) (hr : Reach c s) (t : Nat) (hs : s.slot = Slot.ready) :
+    (astep c s t).1.slot = Slot.ready ∧ (astep c s t).1.payload = s.payload := by
+  have h := reach_inv hwf hr
+  have hk := h.kindpc t
+  unfold astep
+  cases hpc : s.pc t with
+  | done => exact ⟨hs, rfl⟩
+  | gStart =>
+    have ht : t = 0 := by simpa [hpc, pcOK] using hk
+    subst ht
+    have hnm : c.adapter ≠ Adapter.mkProm := by
+      intro ha
+      have := (h.unpub hpc).2.1
+      rw [hwf.mkp ha, hs] at this; simp at this
+    simp only; unfold startStep
+    cases ha : c.adapter <;> simp [ha, hs, casStep, prep, setPc] at hnm ⊢
+  | gCas => simp only; unfold casStep; rw [hs]; simp [setPc, hs]
+  | gParked => simp only; unfold contReg claimStep; cases c.selfRes <;> simp [setPc, hs] <;> split <;> simp [hs]
+  | rArrive => simp only; unfold claimStep; split <;> (try split) <;> simp [setPc, hs]
+  | rBlocked => simp only; unfold claimStep; split <;> simp [setPc, hs]
+  | rFinLost => simp [setPc, hs]
+  | rResolve dt =>
+    exfalso
+    have hw := h.active t (by simp [hpc, isResolve])
+    obtain ⟨w, hw', hn, _⟩ := h.ready_phase hs
+    rw [hw] at hw'; injection hw' with hw'
+    have := hn t hw'.symm
+    rw [hpc] at this; simp [isResolve] at this
+  | rRet dt => simp [retStep, setPc, hs]
+  | dArrive => simp only; unfold dtorStep; split <;> (try split) <;> simp [setPc, hs]
+  | dBlocked => simp only; unfold dtorStep; split <;> simp [setPc, hs]
+  | dFin => simp [setPc, hs]
+  | comp k w =>
+    simp only; unfold compStep
+    cases k with
+    | succ k => simp [setPc, hs]
+    | zero =>
+      cases w <;> simp [complete, retStep, contReg, claimStep, setPc, hs]
+      cases c.selfRes <;> simp [hs] <;> split <;> simp [hs]
+
+/-- **Helper block released exactly once, afterwards.**  At most one block is ever allocated (none by the member-object
+adapters), it is released at most once, never before the completion has run, … -/
+theorem c18_helper_freed_once (hwf : c.WF) (hr : Reach c s) :
+    s.allocs ≤ 1 ∧ s.frees ≤ s.allocs ∧ s.frees ≤ s.calls ∧ (c.adapter.allocates = false → s.allocs = 0) := by
+  have h := reach_inv hwf hr
+  have ha := h.allocs_eq
+  have hf := h.frees_eq
+  have hc := h.calls_eq
+  have hstart : s.pc 0 = Pc.gStart → s.tok ≠ Tok.used := by
+    intro hp hu
+    have := (h.tok_agent 0).2 (by simp [hp, holds])
+    rw [hu] at this; cases this
+  refine ⟨by rw [ha]; split <;> (try split) <;> omega, ?_, ?_, ?_⟩
+  · rw [ha, hf]
+    by_cases hp : s.pc 0 = Pc.gStart
+    · have := hstart hp; simp [hp, this]
+    · simp only [hp, if_false]; split <;> split <;> simp_all
+  · rw [hf, hc]; split <;> split <;> simp_all
+  · intro hn; rw [ha, hn]; simp
+
+/-- … and exactly once when everything has finished and the operation was resolved: nothing leaks. -/
+theorem c18_helper_freed_at_quiescence (hwf : c.WF) (hr : Reach c s) (hd : AllDone c s) (hs : s.slot = Slot.ready) :
+    s.frees = s.allocs ∧ (c.adapter.allocates = true → s.frees = 1) := by
+  have h := reach_inv hwf hr
+  have hu := quiescent_used hwf hr hd hs
+  have hp : s.pc 0 ≠ Pc.gStart := by rw [hd 0 hwf.pos]; simp
+  rw [h.allocs_eq, h.frees_eq]
+  simp only [hu, hp, if_false, true_and]
+  intro ha; simp [ha]
+
+/-- the completion's plain segment runs callback(s), converter and release in this order: the block is released after
+the callback returned -/
+theorem c18_free_follows_callback (c : Cfg) (s : State) :
+    (complete c s).2 = (sawOf c s.payload).map Ev.cb ++ (convInOf c s.payload).map Ev.conv
+        ++ (if c.adapter.allocates then [Ev.free] else []) := rfl
+
+/-- **Single responsibility.**  At any time at most one party is responsible for the completion: an adapter parked in
+the slot excludes every agent, and two agents never hold it together; once it ran nobody holds it. -/
+theorem c18_single_holder (hwf : c.WF) (hr : Reach c s) :
+    (s.slot = Slot.node → ∀ t, holds (s.pc t) = false) ∧
+    (∀ t u, holds (s.pc t) = true → holds (s.pc u) = true → t = u) ∧
+    (s.calls = 1 → s.slot ≠ Slot.node ∧ ∀ t, holds (s.pc t) = false) := by
+  have h := reach_inv hwf hr
+  refine ⟨?_, ?_, ?_⟩
+  · intro hs t
+    have ht := h.tok_slot.2 hs
+    cases hh : holds (s.pc t) with
+    | false => rfl
+    | true => have := (h.tok_agent t).2 hh; rw [ht] at this; cases this
+  · intro t u ht hu
+    have h1 := (h.tok_agent t).2 ht
+    have h2 := (h.tok_agent u).2 hu
+    rw [h1] at h2; injection h2
+  · intro hc
+    have hu : s.tok = Tok.used := by
+      by_cases hu : s.tok = Tok.used
+      · exact hu
+      · rw [h.calls_eq, if_neg hu] at hc; cases hc
+    refine ⟨fun hs => ?_, fun t => ?_⟩
+    · have := h.tok_slot.2 hs; rw [hu] at this; cases this
+    · cases hh : holds (s.pc t) with
+      | false => rfl
+      | true => have := (h.tok_agent t).2 hh; rw [hu] at this; cases this
+
+/-- **Already resolved at registration.**  When the registrar finds the future resolved — `ready()` says yes
+(`callback_await`) or the subscribing CAS is refused (all others, and `callback_await` after a late resolution) — it
+takes the completion itself: it is now the one holder (`comp … reg`), nothing was parked in the slot, and by
+`c18_single_holder` / `c18_once` it runs the completion exactly once. -/
+theorem c18_already_resolved (hwf : c.WF) (hr : Reach c s) (hs : s.slot = Slot.ready)
+    (hpc : s.pc 0 = Pc.gStart ∨ s.pc 0 = Pc.gCas) :
+    (astep c s 0).1.pc 0 = Pc.comp (nloads c s.payload) Who.reg ∧ (astep c s 0).1.tok = Tok.agent 0
+      ∧ (astep c s 0).1.slot = Slot.ready ∧ (astep c s 0).1.calls = s.calls := by
+  have h := reach_inv hwf hr
+  have htok : s.tok = Tok.agent 0 := (h.tok_agent 0).2 (by rcases hpc with hp | hp <;> simp [hp, holds])
+  rcases hpc with hp | hp
+  · have hnm : c.adapter ≠ Adapter.mkProm := by
+      intro ha
+      have := (h.unpub hp).2.1
+      rw [hwf.mkp ha, hs] at this; simp at this
+    unfold astep; rw [hp]; simp only
+    unfold startStep
+    cases ha : c.adapter <;> simp [ha, hs, casStep, prep, setPc, htok] at hnm ⊢
+  · unfold astep; rw [hp]; simp only
+    unfold casStep; rw [hs]; simp [setPc, htok, hs]
+
+/-- **Parked, then resumed by the resolver.**  A successful subscription parks the completion in the slot; the one
+exchange that finds it there (`resolve()` of the winner) hands it to that agent, who then holds it alone. -/
+theorem c18_resolver_takes_over (t : Nat) (dt : Bool) (hpc : s.pc t = Pc.rResolve dt)
+    (hs : s.slot = Slot.node) :
+    (∃ k w, (astep c s t).1.pc t = Pc.comp k w) ∧ (astep c s t).1.tok = Tok.agent t ∧ (astep c s t).1.slot = Slot.ready := by
+  unfold astep; rw [hpc]; simp only
+  unfold resolveStep; rw [hs]; simp [setPc]
+
+/-- **Converters.**  The outer future is resolved at most once, only after the source is resolved, and holds exactly
+`convRes` of the source's outcome; at quiescence it *is* resolved. -/
+theorem c18_conv_outcome (hwf : c.WF) (hr : Reach c s) (ha : c.adapter = Adapter.conv) :
+    (∀ r, s.outer = some r → s.slot = Slot.ready ∧ r = convRes c s.payload) ∧
+    (∀ a ∈ s.convIn, convArg c s.payload = some a) ∧
+    (AllDone c s → s.slot = Slot.ready → s.outer = some (convRes c s.payload) ∧ s.outerSets = 1) := by
+  have h := reach_inv hwf hr
+  refine ⟨?_, ?_, ?_⟩
+  · intro r hr'
+    by_cases hu : s.tok = Tok.used
+    · obtain ⟨h1, _, _, h4, _⟩ := h.done_state hu
+      rw [h4, outerOf, if_pos ha] at hr'
+      injection hr' with hr'
+      exact ⟨h1, hr'.symm⟩
+    · rw [(h.fresh_state hu).2.2.1] at hr'; cases hr'
+  · intro a hain
+    by_cases hu : s.tok = Tok.used
+    · obtain ⟨_, _, h3, _, _⟩ := h.done_state hu
+      rw [h3, convInOf, if_pos ha] at hain
+      cases hc : convArg c s.payload with
+      | none => rw [hc] at hain; simp at hain
+      | some b => rw [hc] at hain; simp at hain; rw [hain]
+    · rw [(h.fresh_state hu).2.1] at hain; cases hain
+  · intro hd hs
+    have hu := quiescent_used hwf hr hd hs
+    obtain ⟨_, _, _, h4, h5⟩ := h.done_state hu
+    rw [h4, h5, outerOf, if_pos ha, if_pos ha]
+    exact ⟨rfl, rfl⟩
+
+/-- what `convRes` is: a source value goes through the converter (its result, its exception, or a promise it left
+unresolved) … -/
+theorem c18_conv_value (hrd : c.convReads = true) (v : Nat) :
+    convArg c (Outcome.val v) = some (if c.srcVoid then none else some v) ∧
+    convRes c (Outcome.val v) =
+      (match c.cvb with
+       | ConvB.ret => OuterRes.val (c.cvf (if c.srcVoid then none else some v))
+       | ConvB.throw e => OuterRes.exc e
+       | ConvB.leave => OuterRes.noValue) := by
+  refine ⟨by simp [convArg, hrd], ?_⟩
+  simp only [convRes, convArg, hrd]
+  cases c.cvb <;> simp
+
+/-- … a source exception reaches the outer future unchanged and the converter is not invoked … -/
+theorem c18_conv_source_exception (hrd : c.convReads = true) (e : Nat) :
+    convArg c (Outcome.exc e) = none ∧ convRes c (Outcome.exc e) = OuterRes.exc e := by
+  simp [convRes, convArg, hrd]
+
+/-- … and a dropped source reaches it as the broken-promise exception. -/
+theorem c18_conv_source_dropped (hrd : c.convReads = true) :
+    convArg c Outcome.none = none ∧ convRes c Outcome.none = OuterRes.canceledExc := by
+  simp [convRes, convArg, hrd]
+
+theorem dtorReady_of (hpub : s.published = true)
+    (h0 : c.selfRes.isSome = true → s.pc 0 = Pc.done)
+    (hres : ∀ i, i < c.n → i ≠ 0 → (c.rk i).isSome = true → s.pc i = Pc.done) : dtorReady c s = true := by
+  unfold dtorReady
+  simp only [Bool.and_eq_true, List.all_eq_true, List.mem_range]
+  refine ⟨hpub, ?_⟩
+  intro i hi
+  by_cases hi0 : i = 0
+  · subst hi0
+    cases hsr : c.selfRes with
+    | none => simp
+    | some k => simp [h0 (by simp [hsr])]
+  · simp only [hi0, if_false]
+    cases hk : c.rk i with
+    | none => rfl
+    | some k => simp [hres i hi hi0 (by simp [hk])]
+
+/-- **No hang.**  As long as some agent has not finished, some agent is enabled: nobody waits for a wake-up that never
+comes (the registrar never blocks; invocations wait only for the promise to exist; `~promise` only for the invocations). -/
+theorem c18_no_hang (hwf : c.WF) (hr : Reach c s) (hnd : ¬ AllDone c s) : ∃ t, t < c.n ∧ enabled c s t = true := by
+  have h := reach_inv hwf hr
+  have hpos := hwf.pos
+  by_cases h0 : s.pc 0 = Pc.done
+  · have hpub : s.published = true := h.pub.2 (by rw [h0]; simp)
+    by_cases hres : ∀ i, i < c.n → i ≠ 0 → (c.rk i).isSome = true → s.pc i = Pc.done
+    · -- only destructor agents are left
+      have hrdy := dtorReady_of (c := c) hpub (fun _ => h0) hres
+      have : ∃ t, t < c.n ∧ s.pc t ≠ Pc.done := by
+        apply Classical.byContradiction
+        intro hcon
+        apply hnd
+        intro t ht
+        apply Classical.byContradiction
+        intro hne
+        exact hcon ⟨t, ht, hne⟩
+      obtain ⟨t, ht, hne⟩ := this
+      refine ⟨t, ht, ?_⟩
+      unfold enabled
+      cases hpc : s.pc t <;> simp_all
+    · have : ∃ i, i < c.n ∧ i ≠ 0 ∧ (c.rk i).isSome = true ∧ s.pc i ≠ Pc.done := by
+        apply Classical.byContradiction
+        intro hcon
+        apply hres
+        intro i hi hi0 hk
+        apply Classical.byContradiction
+        intro hne
+        exact hcon ⟨i, hi, hi0, hk, hne⟩
+      obtain ⟨i, hi, hi0, hk, hne⟩ := this
+      refine ⟨i, hi, ?_⟩
+      have hok := h.kindpc i
+      unfold enabled
+      cases hpc : s.pc i <;> simp_all [pcOK, isDt]
+  · refine ⟨0, hpos, ?_⟩
+    have hok := h.kindpc 0
+    unfold enabled
+    cases hpc : s.pc 0 <;> simp_all [pcOK, isDt]
+
+end
+
+/-! ## The pinned code: `future_conv` over a `future<void>` source ignored the source's failure
+
+`convReads := false` is the step of the two void-source specialisations as they were at the pinned commit (the resume
+function never looked at `_fut`).  The source fails with exception 5, yet the outer future receives the converter's
+value.  Repaired in /repo by reading the source first (`fix:` commit); the theorems above are about the repaired step
+(`convReads = true`, hypothesis of `c18_conv_source_exception` / `c18_conv_source_dropped`). -/
+
+def asIsVoidConv : Cfg :=
+  { adapter := Adapter.conv, n := 2, rk := fun _ => some (RK.exc 5), srcVoid := true, convReads := false }
+
+theorem c18_void_source_asis_witness :
+    let s := run asIsVoidConv (init asIsVoidConv) [0, 1, 1, 1, 0]
+    allDone asIsVoidConv s = true ∧ s.payload = Outcome.exc 5 ∧ s.outer = some (OuterRes.val 7000) ∧ s.convIn = [none] := by
+  decide
+
+/-- the same schedule on the repaired step delivers the source's exception and does not run the converter -/
+theorem c18_void_source_fixed_witness :
+    let c := { asIsVoidConv with convReads := true }
+    let s := run c (init c) [0, 1, 1, 1, 1, 0]
+    allDone c s = true ∧ s.payload = Outcome.exc 5 ∧ s.outer = some (OuterRes.exc 5) ∧ s.convIn = [] := by
+  decide
+
+/-! ## Why `Pre` is needed: a throwing callback is invoked twice by `callback_await_coro` (documented contract) -/
+
+def throwingCb : Cfg :=
+  { adapter := Adapter.cbAwait, n := 2, rk := fun _ => some (RK.value 42), cbThrows := some 88 }
+
+theorem c18_throwing_callback_called_twice :
+    let s := run throwingCb (init throwingCb) [0, 0, 0, 1, 1, 1]
+    allDone throwingCb s = true ∧ s.calls = 1 ∧ s.saw = [Obs.val 42, Obs.exc 88] ∧ s.frees = 1 := by
+  decide
+
+/-! ## Non-vacuity: the hypotheses are met by non-trivial reachable states -/
+
+/-- `callback_await`, resolver racing between `ready()` and the CAS: refused subscription, the registrar completes -/
+example :
+    let c : Cfg := { adapter := Adapter.cbAwait, n := 3, rk := fun i => if i = 1 then some (RK.exc 3) else none }
+    let s := run c (init c) [0, 1, 1, 0, 0, 1, 2, 2, 0]
+    c.WF ∧ AllDone c s ∧ s.slot = Slot.ready ∧ s.calls = 1 ∧ s.saw = [Obs.exc 3] ∧ s.allocs = 1 ∧ s.frees = 1 := by
+  refine ⟨⟨by decide, by decide⟩, ?_, ?_⟩
+  · rw [← allDone_iff]; decide
+  · decide
+
+/-- `make_promise`, two invocations racing plus the destructor: one callback with the winner's value -/
+example :
+    let c : Cfg := { adapter := Adapter.mkProm, n := 4, rk := fun i => if i = 1 then some (RK.value 7) else if i = 2 then some RK.drop else none }
+    let s := run c (init c) [3, 0, 2, 1, 1, 2, 2, 2, 1, 3, 3]
+    c.WF ∧ AllDone c s ∧ s.slot = Slot.ready ∧ s.calls = 1 ∧ s.saw = [Obs.canceled] ∧ s.frees = 1 ∧ s.wins = 1 := by
+  refine ⟨⟨by decide, by decide⟩, ?_, ?_⟩
+  · rw [← allDone_iff]; decide
+  · decide
+
+/-- `future_conv`, source resolved inside the factory (already resolved at registration), throwing converter -/
+example :
+    let c : Cfg := { adapter := Adapter.conv, n := 1, rk := fun _ => none, pre := some (RK.value 4), cvb := ConvB.throw 77 }
+    let s := run c (init c) [0, 0, 0]
+    c.WF ∧ AllDone c s ∧ s.slot = Slot.ready ∧ s.outer = some (OuterRes.exc 77) ∧ s.convIn = [some 4] := by
+  refine ⟨⟨by decide, by decide⟩, ?_, ?_⟩
+  · rw [← allDone_iff]; decide
+  · decide
+
+/-- `discard`, resolved later by the registering thread itself; a state in the middle of a run where the adapter is
+parked (`c18_single_holder`, first clause) -/
+example :
+    let c : Cfg := { adapter := Adapter.discard, n := 1, rk := fun _ => none, selfRes := some (RK.value 1) }
+    let s := run c (init c) [0]
+    c.WF ∧ s.slot = Slot.node ∧ s.calls = 0 ∧ s.allocs = 1 ∧ s.frees = 0 ∧ ¬ AllDone c s := by
+  refine ⟨⟨by decide, by decide⟩, by decide, by decide, by decide, by decide, ?_⟩
+  rw [← allDone_iff]; decide
 
 end Cocls.Callback
